@@ -101,6 +101,7 @@ def obligations(ctx, tier):
             if d.get("trait") not in (TP, FP) or di not in F.bodies or d["kind"] != "AssocFn":
                 continue
             out += core.p_minus(K, PROP, fid, set(), aud)
+            out.append(core.t_row(K, PROP, fid, source_locals=(), content_locals=(1,), any_err=True))    # no value-independent None
         # AsPrimitive == CastFrom (shared with C09)
         for o in c09.obligations_as_primitive(K, PROP):
             out.append(o)
